@@ -11,7 +11,7 @@ def bootstrap(stage=None):
     p = os.path.join(stage, 'zope')
     if p not in zope.__path__:
         zope.__path__.insert(0, p)
-    fx = os.path.join(stage, 'fixtures')
+    fx = os.path.join(os.path.dirname(os.path.dirname(os.path.abspath(__file__))), 'fixtures')
     if fx not in sys.path:
         sys.path.insert(0, fx)
     import zope.interface
